@@ -14,6 +14,7 @@ Purification (all of it listed as trusted in the evidence):
                   s_x = 2 s_y c_y, c_x = c_y^2 - s_y^2
   sign table      0<x<pi => s_x>0 ; -pi/2<x<pi/2 => c_x>0 ; x=0 => s_x=0 and c_x=1
                   |s_x| <= |x|  (as  x>=0 => -x<=s_x<=x ; x<=0 => x<=s_x<=-x)
+  congruence      for trig arguments x, y: x = y => sin/cos atoms equal; x = acos(e) => cos x = e, sin x >= 0
   pi              3.14159 < pi < 3.1416
   uf              uninterpreted function (congruence only)
 """
@@ -251,6 +252,13 @@ class Emitter:
             out.append(f"(=> (<= {xn} 0.0) (and (<= {xn} {s}) (<= {s} (- {xn}))))")
             out.append(f"(=> (and (< 0.0 {xn}) (< {xn} (* 2.0 {pi}))) (< {c} 1.0))")
             out.append(f"(=> (> {xn} 0.0) (< {s} {xn}))")
+        # congruence (Ackermann) between trig atoms whose arguments may be proved equal
+        for i, (x, (sx, cx, xn)) in enumerate(trig):
+            for y, (sy, cy, yn) in trig[i + 1 :]:
+                out.append(f"(=> (= {xn} {yn}) (and (= {sx} {sy}) (= {cx} {cy})))")
+        for t, th, en in self.acos_nodes:
+            for x, (sx, cx, xn) in trig:
+                out.append(f"(=> (= {xn} {th}) (and (= {cx} {en}) (>= {sx} 0.0)))")
         for i, (x, (sx, cx, _)) in enumerate(trig):
             for y, (sy, cy, _) in trig:
                 if x is y:
